@@ -1,0 +1,5 @@
+//go:build !verif
+
+package resolve
+
+func verifYield(point string, key any) {}
